@@ -103,6 +103,8 @@ inductive Stmt
   | ifMain (body : List Stmt)                                  -- `if __name__ == '__main__':`
   | ifCmp (g : Guard) (body : List Stmt)                       -- `if [not] <operand> <op> <operand>:` (no `else`)
   | oldStyle (name : Name) (w : Wrap)                          -- `name = staticmethod(name)`
+  | delName (name : Name)                                      -- `del name`
+  | docAssign (name : Name) (text : List Char)                 -- `name.__doc__ = "text"`
   | other                                                      -- `pass`, an import, a non-string expression
   deriving Repr, Inhabited
 
@@ -292,6 +294,31 @@ def handleModuleVar (s : State) (n : Name) (ann : Option Name) (value : Option L
     if obj.cls ≠ .attribute then s                                          -- `if not isinstance(obj, Attribute): return`
     else { contents := upd s.contents n (fun o => storeVar o ann value inBlock .variable), cur := some n }
 
+/-- a class as `Class.find` sees it: its `contents` as (name, the object is an `Attribute`) -/
+abbrev ClassContents := List (Name × Bool)
+
+/-- `Class.find(name)`: `for base in self.mro(): obj = base.contents.get(name); if obj is not None: return obj`;
+`chain` is `self.mro()` (while the AST is being visited: `list(self.allbases(include_self=True))`) -/
+def findIn : List ClassContents → Name → Option Bool
+  | [], _ => none
+  | cc :: rest, n =>
+    match cc.find? (·.1 = n) with
+    | some p => some p.2
+    | none => findIn rest n
+
+/-- `_maybeAttribute(cls, name)`: `obj is None or isinstance(obj, Attribute)` -/
+def maybeAttributeIn (chain : List ClassContents) (n : Name) : Bool :=
+  match findIn chain n with
+  | none => true
+  | some isAttr => isAttr
+
+/-- the names for which `find`, restricted to the bases, answers with something that is not an `Attribute`
+(what `Ctx.inheritedNonAttr` stands for) -/
+def inheritedNonAttrOf (bases : List ClassContents) : List Name :=
+  (bases.flatMap fun cc => cc.map (·.1)).filter fun n => findIn bases n == some false
+
+def ownContents (s : State) : ClassContents := s.contents.map fun m => (m.name, decide (m.cls = .attribute))
+
 /-- `_maybeAttribute(cls, name)`: `cls.find(name)` is `None` or an `Attribute` (own contents first, then bases) -/
 def maybeAttribute (c : Ctx) (s : State) (n : Name) : Bool :=
   match lookup s.contents n with
@@ -333,6 +360,14 @@ def handleOldStyle (c : Ctx) (s : State) (n : Name) (w : Wrap) (inBlock : Bool) 
       else .ok (handleClassVar c s n none (some .call) inBlock)
     | none => .ok (handleClassVar c s n none (some .call) inBlock)
   else .ok (handleModuleVar s n none (some .call) inBlock)
+
+/-- `name.__doc__ = "text"` at module or class level: `_handleDocstringUpdate`.  The target is looked up by
+name (`node2fullname` + `objForFullName`; generated names resolve in the scope itself or not at all); the string
+is stored as it is — NOT cleaned (`obj.docstring = docstring`). -/
+def handleDocAssign (s : State) (n : Name) (text : List Char) : State :=
+  match lookup s.contents n with
+  | some _ => { s with contents := upd s.contents n (fun o => { o with doc := some text }) }
+  | none => s            -- "Unable to figure out target for __doc__ assignment": a warning, nothing else
 
 /-! ## definitions -/
 
@@ -404,6 +439,8 @@ def execStmt (c : Ctx) (inBlock : Bool) (s : State) : Stmt → Outcome
   | .ifMain _ => .ok s                                    -- `visit_If`: SkipNode
   | .ifCmp g body => if isNameEqualsMain g then .ok s else execList c true s body
   | .oldStyle n w => handleOldStyle c s n w inBlock
+  | .delName _ => .ok s                                   -- there is no `visit_Delete`: the object stays documented
+  | .docAssign n t => .ok (handleDocAssign s n t)
   | .other => .ok s
 def execList (c : Ctx) (inBlock : Bool) (s : State) : List Stmt → Outcome
   | [] => .ok s
@@ -593,6 +630,16 @@ def execStmt (c : Ctx) (ns : Ns) : Stmt → Outcome
     match lookup ns n with
     | some o => .ok (bind ns n (match w with | .staticmethod => .sm o | .classmethod => .cm o))
     | none => .raises                                      -- NameError
+  | .delName n =>
+    match lookup ns n with
+    | some _ => .ok (ns.filter (fun p => p.1 != n))        -- the name is unbound again
+    | none => .raises                                      -- NameError
+  | .docAssign n t =>
+    match lookup ns n with
+    | some (.func a _) => .ok (bind ns n (.func a (some t)))       -- `__doc__` of a function object is writable
+    | some (.cls e _) => .ok (bind ns n (.cls e (some t)))         -- and of a class
+    | some .foreign => .ok ns                                       -- a function defined elsewhere: its `__doc__`, not this namespace
+    | _ => .raises                                                -- unbound name / an object without writable `__doc__`
   | .other => .ok ns
 def execList (c : Ctx) (ns : Ns) : List Stmt → Outcome
   | [] => .ok ns
@@ -647,8 +694,10 @@ end PySem
 
 /-! # The agreed subset, as a decidable predicate on one scope's statements
 
-`Subset.inSubset c stmts`: every name is bound once (`name = staticmethod(name)` right in the class
-that defined `name` as a plain method is the one allowed rebinding), decorators of a `def` are bare
+`Subset.inSubset c stmts`: a name may be bound again by a `def` or a `class` (whatever it was bound to) and a
+variable may be assigned again — the last binding wins on both sides; an assignment to a name that is bound to a
+function, class or property is excluded (pydoctor keeps the definition); `name = staticmethod(name)` right in the class
+that defined `name` as a plain method is allowed once, decorators of a `def` are bare
 `classmethod` / `staticmethod` / `property` (in a class only, at most one of them per `def`), identity
 decorators defined in the package whose name does not end in `property`/`Property`, or non-name
 expressions; no `@x.setter` / `@x.deleter` / `@overload`; no bare annotation; `else`/`finally` parts bind nothing; an
@@ -696,23 +745,38 @@ def basesOk (c : Ctx) (bases : List Base) : Bool :=
   (extNames c.env (c.env.length + 1) bases).all (fun n => c.pdExc.contains n == c.pyExc.contains n)
 
 structure Seen where
-  names : List Name := []       -- names bound so far, in binding order
-  plain : List Name := []       -- bound by a `def` of a class without descriptor decorator, not wrapped yet
+  names : List Name := []       -- names bound so far, in order of first binding
+  plain : List Name := []       -- now bound by a `def` of a class without descriptor decorator, not wrapped yet
+  docable : List Name := []     -- now bound by a `def` without descriptor decorator or by a `class`, not wrapped
+  vars : List Name := []        -- now bound to a variable (an assignment)
   deriving Repr
+
+/-- `names` with `n` recorded (a re-bound name keeps its place, as in a dict) -/
+def addName (names : List Name) (n : Name) : List Name := if names.contains n then names else names ++ [n]
+
+/-- forget what was known about `n`: it is being re-bound -/
+def dropName (n : Name) (l : List Name) : List Name := l.filter (· != n)
 
 mutual
 def checkStmt (c : Ctx) (sn : Seen) : Stmt → Option Seen
   | .classDef n bases decos _ _ =>
-    if sn.names.contains n || !decos.all transparent || !basesOk c bases then none
-    else some { names := sn.names ++ [n], plain := sn.plain }
+    -- a `class` may re-bind any name: the last definition wins on both sides
+    if !decos.all transparent || !basesOk c bases then none
+    else some { names := addName sn.names n, plain := dropName n sn.plain, docable := dropName n sn.docable ++ [n],
+                vars := dropName n sn.vars }
   | .funcDef n _ decos _ =>
-    if sn.names.contains n || !decosOk c.inClass decos then none
-    else some { names := sn.names ++ [n],
-                plain := if c.inClass && (descs decos).isEmpty then sn.plain ++ [n] else sn.plain }
+    -- and so may a `def`
+    if !decosOk c.inClass decos then none
+    else some { names := addName sn.names n,
+                plain := if c.inClass && (descs decos).isEmpty then dropName n sn.plain ++ [n] else dropName n sn.plain,
+                docable := if (descs decos).isEmpty then dropName n sn.docable ++ [n] else dropName n sn.docable,
+                vars := dropName n sn.vars }
   | .assign n v _ =>
-    if sn.names.contains n ||
-        (c.inClass && c.inheritedNonAttr.contains n && !Builder.isLiteralValue (some v)) then none
-    else some { names := sn.names ++ [n], plain := sn.plain }
+    -- an assignment may re-bind a VARIABLE; after a `def`/`class`/property of that name pydoctor keeps the definition
+    if (sn.names.contains n && !sn.vars.contains n) ||
+        (!sn.names.contains n && c.inClass && c.inheritedNonAttr.contains n && !Builder.isLiteralValue (some v)) then none
+    else some { names := addName sn.names n, plain := dropName n sn.plain, docable := dropName n sn.docable,
+                vars := dropName n sn.vars ++ [n] }
   | .annOnly _ _ => none
   | .attrDoc _ => some sn
   | .block _ body tail => if tail.all inert then checkList c sn body else none
@@ -722,7 +786,12 @@ def checkStmt (c : Ctx) (sn : Seen) : Stmt → Option Seen
     if Builder.isNameEqualsMain g == g.onImport then none
     else if Builder.isNameEqualsMain g then some sn else checkList c sn body
   | .oldStyle n _ =>
-    if c.inClass && sn.plain.contains n then some { sn with plain := sn.plain.filter (· != n) } else none
+    if c.inClass && sn.plain.contains n then
+      some { sn with plain := sn.plain.filter (· != n), docable := sn.docable.filter (· != n) } else none
+  | .delName _ => none
+  | .docAssign n t =>
+    -- the assigned string is stored uncleaned: the two sides agree when cleaning does not change it
+    if sn.docable.contains n && Lineno.cleandoc t == t then some sn else none
   | .other => some sn
 def checkList (c : Ctx) (sn : Seen) : List Stmt → Option Seen
   | [] => some sn
